@@ -243,6 +243,11 @@ package scipipe
 // Different processes must get different directories even when their names look alike: the hash input starts with the
 // raw process name, not a normalised form of it.
 //@   atcall strings.Join hash-input-starts-with-the-raw-process-name[C14]: len($arg0) >= 1 && $arg0[0] == t.Name
+//@   loop 0 invariant first-piece: len(hashPcs) >= 1 && hashPcs[0] == t.Name && t == old(t)
+//@   loop 1 invariant first-piece: len(hashPcs) >= 1 && hashPcs[0] == t.Name && t == old(t)
+//@   loop 2 invariant first-piece: len(hashPcs) >= 1 && hashPcs[0] == t.Name && t == old(t)
+//@   loop 3 invariant first-piece: len(hashPcs) >= 1 && hashPcs[0] == t.Name && t == old(t)
+//@   loop 4 invariant first-piece: len(hashPcs) >= 1 && hashPcs[0] == t.Name && t == old(t)
 
 //@ func (*Task).tempDirsExist(t) (res)
 //@   props C03
